@@ -1250,6 +1250,11 @@ impl<'a> Explorer<'a> {
                 stats.caps_hit.push(format!("{}: exploration stopped after depth {} because {} violations were already recorded", cfg.label(), depth, vios.total()));
                 break;
             }
+            if rss_bytes() > rss_cap_bytes() {
+                stats.exhaustive = false;
+                stats.caps_hit.push(format!("{}: stopped at depth {} with {} states because the process reached the memory cap of {} GB (VERIF_MAX_RSS_GB)", cfg.label(), depth, self.nodes.len(), rss_cap_bytes() >> 30));
+                break;
+            }
             if self.nodes.len() > cfg.max_states {
                 stats.exhaustive = false;
                 stats.caps_hit.push(format!("{}: state cap {} reached at depth {}", cfg.label(), cfg.max_states, depth));
